@@ -321,3 +321,1442 @@ FP_FUNCS = ["pkt_line", "pkt_seq", "_parse_pkt_line_length", "Protocol.read_pkt_
             "ReceivableProtocol.read", "ReceivableProtocol.recv", "BufferedPktLineWriter.write",
             "BufferedPktLineWriter.flush", "PktLineParser.parse", "extract_capabilities",
             "extract_want_line_capabilities", "format_capability_line", "format_ref_line"]
+
+
+# ------------------------------------------------------------------------------------------------
+# helpers: chunked transports, time limit, canonical output
+
+class Hang(Exception):
+    pass
+
+
+class time_limit:
+    """Pure-Python code that loops forever is interrupted (SIGALRM) and reported, not waited for."""
+
+    def __init__(self, sec: float):
+        self.sec = sec
+
+    def __enter__(self):
+        import signal
+
+        def onalarm(signum, frame):
+            raise Hang()
+        self.old = signal.signal(signal.SIGALRM, onalarm)
+        signal.setitimer(signal.ITIMER_REAL, self.sec)
+
+    def __exit__(self, *a):
+        import signal
+        signal.setitimer(signal.ITIMER_REAL, 0)
+        signal.signal(signal.SIGALRM, self.old)
+        return False
+
+
+def make_recv(chunks):
+    """socket.recv-like callable delivering the scheduled fragments (cut to the requested size);
+    b"" once exhausted.  Same contract as the model's `srcRecv`."""
+    q = [bytes(c) for c in chunks]
+
+    def recv(n):
+        if not q:
+            return b""
+        c = q[0]
+        if len(c) <= n:
+            q.pop(0)
+            return c
+        q[0] = c[n:]
+        return c[:n]
+    return recv
+
+
+class RawChunks(io.RawIOBase):
+    """Raw stream whose readinto() returns the scheduled fragments: under io.BufferedReader this is a
+    blocking file-like read() over a transport that delivers short reads (socket.makefile, a pipe)."""
+
+    def __init__(self, chunks):
+        self.q = [bytes(c) for c in chunks if c]
+
+    def readable(self):
+        return True
+
+    def readinto(self, b):
+        if not self.q:
+            return 0
+        c = self.q[0]
+        n = min(len(c), len(b))
+        b[:n] = c[:n]
+        if n == len(c):
+            self.q.pop(0)
+        else:
+            self.q[0] = c[n:]
+        return n
+
+
+def show_pkt(p):
+    return "N" if p is None else "d:" + hx(p)
+
+
+def show_list(l):
+    return "[" + ",".join(hx(x) for x in l) + "]"
+
+
+def _classify_exc(e):
+    from dulwich.errors import GitProtocolError, HangupException
+    if isinstance(e, HangupException):
+        return "H"
+    if isinstance(e, GitProtocolError):
+        return "P"
+    if isinstance(e, Hang):
+        return "HANG"
+    return "O"
+
+
+def read_all_real(proto, limit=1_000_000):
+    """Call read_pkt_line until it raises; canonical output like the driver's."""
+    out = []
+    exc = None
+    try:
+        with time_limit(20):
+            for _ in range(limit):
+                try:
+                    pkt = proto.read_pkt_line()
+                except Hang:
+                    raise
+                except Exception as e:  # noqa: BLE001 - classification is the point
+                    out.append(_classify_exc(e))
+                    exc = e
+                    break
+                out.append(show_pkt(pkt))
+    except Hang:
+        out.append("HANG")
+    return " ".join(out), exc
+
+
+def real_read_blocking(stream: bytes):
+    from dulwich.protocol import Protocol
+    return read_all_real(Protocol(io.BytesIO(stream).read, lambda b: None))
+
+
+def real_read_buffered(chunks):
+    from dulwich.protocol import Protocol
+    return read_all_real(Protocol(io.BufferedReader(RawChunks(chunks), buffer_size=rbuf_for(chunks)).read, lambda b: None))
+
+
+def rbuf_for(chunks):
+    # vary the BufferedReader buffer with the data so both its fast path and its loop are used
+    return [16, 64, 8192][sum(len(c) for c in chunks) % 3]
+
+
+def real_read_rp(chunks, rbufsize=None):
+    from dulwich.protocol import ReceivableProtocol
+    kw = {} if rbufsize is None else {"rbufsize": rbufsize}
+    return read_all_real(ReceivableProtocol(make_recv(chunks), lambda b: None, **kw))
+
+
+def real_parse(chunks):
+    from dulwich.protocol import PktLineParser
+    got = []
+    p = PktLineParser(got.append)
+    end = None
+    try:
+        with time_limit(20):
+            for c in chunks:
+                try:
+                    p.parse(c)
+                except Hang:
+                    raise
+                except Exception as e:  # noqa: BLE001
+                    end = _classify_exc(e)
+                    break
+    except Hang:
+        end = "HANG"
+    if end is None:
+        end = "T:" + hx(p.get_tail())
+    return " ".join([show_pkt(x) for x in got] + [end])
+
+
+# ------------------------------------------------------------------------------------------------
+# independent reference framer / deframer (git's protocol-common rules; no dulwich code involved)
+
+HEXCHARS = b"0123456789abcdefABCDEF"
+
+
+def ref_frame(payload):
+    """None -> flush-pkt; bytes -> one frame, or None when it cannot be one frame."""
+    if payload is None:
+        return b"0000"
+    if len(payload) > GIT_DATA_MAX:
+        return None
+    return b"%04x" % (len(payload) + 4) + payload
+
+
+def ref_decode(data: bytes):
+    frames, i = [], 0
+    while True:
+        if i == len(data):
+            return frames, "eof", b""
+        pre = data[i:i + 4]
+        if len(pre) < 4:
+            return frames, "trunc-prefix", data[i:]
+        if any(c not in HEXCHARS for c in pre):
+            return frames, "bad-prefix", data[i:]
+        n = int(pre, 16)
+        if n == 0:
+            frames.append(("flush",))
+            i += 4
+        elif n == 1:
+            frames.append(("delim",))
+            i += 4
+        elif n < 4:
+            return frames, "bad-len", data[i:]
+        elif i + n > len(data):
+            return frames, "trunc-body", data[i:]
+        else:
+            frames.append(("data", data[i + 4:i + n]))
+            i += n
+
+
+def expect_reader(data: bytes, rp: bool):
+    """What the property demands of read_pkt_line over `data` (frames, then Hangup at a clean end or a
+    protocol error).  Returns (expected string, index of the first empty data frame or None)."""
+    frames, end, _ = ref_decode(data)
+    out, first_empty = [], None
+    for k, f in enumerate(frames):
+        if f[0] == "data":
+            if f[1] == b"" and first_empty is None:
+                first_empty = k
+            out.append(show_pkt(f[1]))
+        else:
+            out.append("N")
+    out.append("H" if end == "eof" else "P")
+    return " ".join(out), first_empty
+
+
+def expect_parser(data: bytes):
+    frames, end, rest = ref_decode(data)
+    out = []
+    for f in frames:
+        if f[0] == "data":
+            out.append(show_pkt(f[1]))
+        elif f[0] == "flush":
+            out.append("N")
+        else:
+            # delim-pkt: the incremental parser predates protocol v2 and refuses it (a protocol error,
+            # which the property allows)
+            return " ".join(out + ["P"])
+    if end in ("eof", "trunc-prefix", "trunc-body"):
+        out.append("T:" + hx(rest))
+    else:
+        out.append("P")
+    return " ".join(out)
+
+
+# ------------------------------------------------------------------------------------------------
+# generators
+
+BOUNDARY_SIZES = [65515, 65516]
+OVERSIZE = [65517, 65519, 65520, 65521, 65531, 65532, 65533, 65536, 70000, 131072]
+
+
+def gen_payload(rng, big_ok=False):
+    k = rng.random()
+    if k < 0.12:
+        return None
+    if k < 0.22:
+        return b""
+    if k < 0.30:
+        return rng.choice([b"0000", b"0004", b"0001", b"00", b"fff", b"\n", b"\0", b"0005a"])
+    if big_ok and k < 0.34:
+        n = rng.choice(BOUNDARY_SIZES + [65514, 40000, 65000])
+        return bytes([rng.randrange(256)]) * n if rng.random() < 0.5 else rng.randbytes(n)
+    n = rng.choice([1, 1, 2, 3, 4, 5, 7, 12, 60, 250, 251, 252, 255, 256, 1000, 4091, 4092, 4093])
+    if rng.random() < 0.3:
+        return bytes(rng.choice(b"0123456789abcdefABCDEF\n \0") for _ in range(n))
+    return rng.randbytes(n)
+
+
+def gen_seq(rng, big_ok=False, maxlen=6):
+    return [gen_payload(rng, big_ok) for _ in range(rng.randint(0, maxlen))]
+
+
+def frame_boundaries(ps):
+    from dulwich.protocol import pkt_line
+    pos, out = 0, []
+    for p in ps:
+        pos += len(pkt_line(p))
+        out.append(pos)
+    return out
+
+
+def split_at(data: bytes, cuts):
+    cuts = sorted({c for c in cuts if 0 < c < len(data)})
+    out, prev = [], 0
+    for c in cuts + [len(data)]:
+        out.append(data[prev:c])
+        prev = c
+    return [c for c in out if c] if data else []
+
+
+def random_partition(rng, data: bytes, bounds=()):
+    n = len(data)
+    if n == 0:
+        return "empty", []
+    mode = rng.choice(["one", "bytes", "few", "many", "edges", "edges", "prefix-split", "fixed"])
+    if mode == "bytes" and n > 3000:
+        mode = "many"
+    if mode == "one":
+        return mode, [data]
+    if mode == "bytes":
+        return mode, [data[i:i + 1] for i in range(n)]
+    if mode == "few":
+        return mode, split_at(data, [rng.randrange(1, n + 1) for _ in range(rng.randint(1, 3))])
+    if mode == "many":
+        return mode, split_at(data, [rng.randrange(1, n + 1) for _ in range(min(n, rng.randint(4, 200)))])
+    if mode == "fixed":
+        k = rng.choice([1, 2, 3, 4, 5, 7, 8, 4096, 65536]) if n <= 3000 else rng.choice([4096, 16384, 65535, 65536, 65537])
+        return f"fixed{k}", [data[i:i + k] for i in range(0, n, k)]
+    bs = [0] + list(bounds)
+    cuts = []
+    if mode == "edges":
+        for b in bs:
+            for d in rng.sample([-2, -1, 0, 1, 2, 3, 4, 5], rng.randint(1, 4)):
+                cuts.append(b + d)
+    else:  # every frame's 4-byte prefix cut at a random inner position
+        for b in bs:
+            cuts.append(b + rng.randint(1, 3))
+            if rng.random() < 0.5:
+                cuts.append(b + 4)
+    return mode, split_at(data, cuts)
+
+
+def all_partitions(data: bytes):
+    n = len(data)
+    if n == 0:
+        yield []
+        return
+    for mask in range(1 << (n - 1)):
+        cuts = [i + 1 for i in range(n - 1) if mask >> i & 1]
+        yield split_at(data, cuts)
+
+
+def mutate_stream(rng, data: bytes) -> tuple[str, bytes]:
+    """Malformed-stream generator: a structured edit of a valid encoding."""
+    kind = rng.choice(["trunc", "flip-prefix", "bad-hex", "short-len", "long-len", "upper", "insert", "delim",
+                       "0002", "0003", "sign", "space", "0x", "underscore", "random", "tail-garbage"])
+    b = bytearray(data)
+    if kind == "trunc" and b:
+        return kind, bytes(b[:rng.randrange(len(b))])
+    if kind == "flip-prefix" and len(b) >= 4:
+        b[rng.randrange(4)] = rng.randrange(256)
+        return kind, bytes(b)
+    if kind == "bad-hex":
+        pre = bytes(rng.choice(b"0123456789abcdefABCDEFgG-+ _xX\0\n\xff") for _ in range(4))
+        return kind, pre + bytes(b)
+    if kind == "short-len":
+        return kind, b"%04x" % rng.choice([2, 3]) + bytes(b)
+    if kind == "long-len":
+        return kind, bytes(b) + b"%04x" % rng.choice([5, 6, 100, 0xffff]) + rng.randbytes(rng.randint(0, 3))
+    if kind == "upper":
+        return kind, bytes(b[:4]).upper() + bytes(b[4:]) if len(b) >= 4 else (b"000A" + b"abcdef")
+    if kind == "insert":
+        p = rng.randint(0, len(b))
+        return kind, bytes(b[:p]) + rng.randbytes(rng.randint(1, 5)) + bytes(b[p:])
+    if kind == "delim":
+        return kind, b"0001" + bytes(b)
+    if kind == "0002":
+        return kind, bytes(b) + b"0002"
+    if kind == "0003":
+        return kind, b"0003" + bytes(b)
+    if kind == "sign":
+        return kind, rng.choice([b"-001", b"+005", b"-00a", b"+0000"]) + bytes(b)
+    if kind == "space":
+        return kind, rng.choice([b" 005", b"005 ", b"  5 ", b"\t005", b"5\n\n\n"]) + b"a" + bytes(b)
+    if kind == "0x":
+        return kind, rng.choice([b"0x05", b"0X05", b"0x00"]) + b"a" + bytes(b)
+    if kind == "underscore":
+        return kind, rng.choice([b"0_05", b"00_5", b"1_00"]) + b"a" + bytes(b)
+    if kind == "tail-garbage":
+        return kind, bytes(b) + rng.randbytes(rng.randint(1, 6))
+    return "random", rng.randbytes(rng.randint(0, 24))
+
+
+def mk_blob(rng, n: int):
+    """(replayable spec, bytes): small blobs are stored as hex, big ones as (length, PRNG seed)."""
+    if n <= 128:
+        b = rng.randbytes(n)
+        return hx(b), b
+    seed = rng.getrandbits(32)
+    return {"n": n, "seed": seed}, blob_of({"n": n, "seed": seed})
+
+
+def blob_of(spec) -> bytes:
+    if isinstance(spec, str):
+        return unhx(spec)
+    import random
+    return random.Random(spec["seed"]).randbytes(spec["n"])
+
+
+def drv_chunks(chunks):
+    return "".join(" " + hx(c) for c in chunks)
+
+
+# ------------------------------------------------------------------------------------------------
+# streams
+
+def _enc(ps):
+    from dulwich.protocol import pkt_line
+    return b"".join(pkt_line(p) for p in ps)
+
+
+def _short(s: str, n=160):
+    return s if len(s) <= n else s[:n] + f"...({len(s)} chars)"
+
+
+def _check_decoders(ctx, stream, data: bytes, chunks, ps=None, tag="", exhaustive=False):
+    """One (byte stream, chunking) case through all real decoders: collects driver lines for the
+    correspondence and applies the direct oracle.  Returns the pending model comparisons."""
+    pend = []
+    case = {"stream_hex": hx(data), "chunk_sizes": [len(c) for c in chunks],
+            "payload_lens": None if ps is None else [None if p is None else len(p) for p in ps]}
+    exp_r, first_empty = expect_reader(data, False)
+    exp_p = expect_parser(data)
+    # 1. plain Protocol over a blocking read (BytesIO) and over a BufferedReader on a short-reading raw stream
+    if not exhaustive:
+        r_block, _ = real_read_blocking(data)
+        pend.append((f"c19.read {hx(data)}", r_block, stream + ".read", case, "Protocol(BytesIO)"))
+        ctx.count(stream + ".read", (data,), True, tag)
+        if r_block != exp_r:
+            ctx.oracle_fail(stream + ".read", dict(case, decoder="Protocol(BytesIO.read)"),
+                            f"read_pkt_line sequence {_short(r_block)} != reference {_short(exp_r)}")
+    r_buf, _ = real_read_buffered(chunks)
+    ctx.count(stream + ".read-buffered", (data, tuple(len(c) for c in chunks)), True, tag)
+    if r_buf != exp_r:
+        ctx.oracle_fail(stream + ".read-buffered", dict(case, decoder="Protocol(BufferedReader(short reads).read)"),
+                        f"read_pkt_line sequence {_short(r_buf)} != reference {_short(exp_r)}")
+    # 2. ReceivableProtocol over recv fragments
+    r_rp, exc = real_read_rp(chunks)
+    pend.append((f"c19.rpread{drv_chunks(chunks)}", r_rp, stream + ".rp", case, "ReceivableProtocol"))
+    ctx.count(stream + ".rp", (data, tuple(len(c) for c in chunks)), True, tag)
+    if r_rp != exp_r:
+        cls = None
+        if first_empty is not None:
+            toks = exp_r.split(" ")
+            if r_rp == " ".join(toks[:first_empty] + ["O"]) and isinstance(exc, AssertionError):
+                cls = "rp-empty-pkt-line-0004"
+        ctx.oracle_fail(stream + ".rp", dict(case, decoder="ReceivableProtocol(recv fragments)"),
+                        f"read_pkt_line sequence {_short(r_rp)} != reference {_short(exp_r)}"
+                        + (f" ({type(exc).__name__})" if exc is not None else ""), cls)
+    # 3. PktLineParser fed the fragments
+    r_ps = real_parse(chunks)
+    pend.append((f"c19.parse{drv_chunks(chunks)}", r_ps, stream + ".parser", case, "PktLineParser"))
+    ctx.count(stream + ".parser", (data, tuple(len(c) for c in chunks)), True, tag)
+    if r_ps != exp_p:
+        ctx.oracle_fail(stream + ".parser", dict(case, decoder="PktLineParser(fragments)"),
+                        f"parser output {_short(r_ps)} != reference {_short(exp_p)}")
+    # 4. round trip in the property's own words (only meaningful for encodings of in-range payloads)
+    if ps is not None:
+        want = " ".join(show_pkt(p) for p in ps)
+        for name, got, end in (("rp", r_rp, "H"), ("buffered", r_buf, "H"), ("parser", r_ps, "T:-")):
+            if got != (want + " " + end).strip():
+                if name == "rp" and any(p == b"" for p in ps):
+                    continue  # already reported above under its class
+                ctx.oracle_fail(stream + ".roundtrip", dict(case, decoder=name),
+                                f"decode(encode(ps)) != ps: {_short(got)}")
+    return pend
+
+
+def _flush_pending(ctx, pend):
+    outs = ctx.driver.batch([p[0] for p in pend])
+    for (line, real, stream, case, variant), o in zip(pend, outs):
+        if o != real:
+            ctx.disagree(stream, case, _short(o, 400), _short(real, 400), variant)
+
+
+def _stream_prefix(ctx):
+    """pkt_line length prefixes for every payload length 0..70000 (cheap: the prefix only) + full frames at
+    the boundary sizes; frame well-formedness oracle against the reference framer."""
+    from dulwich.protocol import pkt_line
+    rng = ctx.rng
+    N = 70001
+    outs = ctx.driver.batch([f"c19.prefix {n}" for n in range(N)])
+    # the real prefix for length n: format through the real function on a zero-copy-ish payload is O(n);
+    # do it for all n up to 4200 and around every power of 16 / limit, and by len-only probing elsewhere
+    probe = set(range(0, 4200)) | {n + d for n in (0xFFF, 0xFFFF, 65515, 65516, 65519, 65520, 65531, 65532, 65535, 65536, 69999)
+                                   for d in range(-6, 7) if 0 <= n + d < N}
+    probe |= {rng.randrange(N) for _ in range(ctx.budget(300))}
+    big = bytes(N)
+    mv = memoryview(big)
+    for n in sorted(probe):
+        payload = bytes(mv[:n])
+        fr = pkt_line(payload)
+        real = fr[:len(fr) - n]
+        ctx.count("prefix", n, True, "fits" if n <= GIT_DATA_MAX else ("4-digit>git-max" if n <= 65531 else "5-digit"))
+        if outs[n] != hx(real):
+            ctx.disagree("prefix", {"payload_len": n}, outs[n], hx(real))
+        _oracle_frame(ctx, "prefix", payload, fr)
+    ctx.extra_cov["prefix_lengths_model"] = N
+    # model-side full sweep is also checked against the reference framer's idea of the prefix
+    for n in range(N):
+        exp = ("%04x" % (n + 4)).encode()
+        if outs[n] != hx(exp):
+            ctx.disagree("prefix.model-vs-format", {"payload_len": n}, outs[n], hx(exp))
+    # flush
+    o = ctx.driver.batch(["c19.pktline N", "c19.pktline -", "c19.pktline 00"])
+    for arg, oo, p in zip(["N", "-", "00"], o, [None, b"", b"\0"]):
+        ctx.count("pktline", arg, True, "small")
+        if oo != hx(pkt_line(p)):
+            ctx.disagree("pktline", {"payload": arg}, oo, hx(pkt_line(p)))
+
+
+def _oracle_frame(ctx, stream, payload: bytes, frame: bytes):
+    """`payloads too large for one frame are split or refused, never emitted as a malformed frame`."""
+    ref = ref_frame(payload)
+    n = len(payload)
+    if ref is None:
+        # one frame was returned for a payload that does not fit one
+        if n + 4 > 0xFFFF:
+            cls = "pkt_line:payload>=65532:five-digit-prefix" if frame[:len(frame) - n] == b"%x" % (n + 4) and frame[len(frame) - n:] == payload else None
+        else:
+            cls = "pkt_line:payload65517..65531:frame>LARGE_PACKET_MAX" if frame == b"%04x" % (n + 4) + payload else None
+        ctx.oracle_fail(stream, {"payload_len": n, "payload": "00*%d" % n if payload == bytes(n) else hx(payload)[:64],
+                                 "frame_prefix": frame[:8].decode("latin1")},
+                        f"pkt_line emitted one {len(frame)}-byte frame (prefix {frame[:len(frame) - n]!r}) for a {n}-byte payload; "
+                        f"git's limit is {GIT_LARGE_PACKET_MAX} bytes per frame", cls)
+    elif frame != ref:
+        ctx.oracle_fail(stream, {"payload_len": n, "payload": hx(payload)[:64]},
+                        f"pkt_line frame {frame[:12]!r}... != reference {ref[:12]!r}...")
+
+
+def _stream_parselen(ctx):
+    """_parse_pkt_line_length: all 22^4 four-digit prefixes (65536 values in every case mix), all single
+    non-hex substitutions, wrong lengths, random 4-byte strings."""
+    from dulwich.protocol import _parse_pkt_line_length
+    from dulwich.errors import GitProtocolError
+    rng = ctx.rng
+    cases = [bytes(t) for t in itertools.product(HEXCHARS, repeat=4)]
+    nvalid = len(cases)
+    for pos in range(4):
+        for v in range(256):
+            b = bytearray(b"0a5F")
+            b[pos] = v
+            cases.append(bytes(b))
+    cases += [b"", b"0", b"00", b"000", b"00000", b"000000", b"0x10", b"-001", b"+001", b" 001", b"001 ", b"0_01", b"1_0",
+              b"\n001", b"001\n", "٠٠٠١".encode()[:4], b"\xef\xbc\x91" + b"0"]
+    cases += [rng.randbytes(4) for _ in range(ctx.budget(2000))]
+    cases += [rng.randbytes(rng.choice([1, 2, 3, 5, 8])) for _ in range(ctx.budget(200))]
+    outs = ctx.driver.batch([f"c19.parselen {hx(c)}" for c in cases])
+    for i, (c, o) in enumerate(zip(cases, outs)):
+        try:
+            v = _parse_pkt_line_length(c)
+            real = f"ok {v}"
+        except GitProtocolError:
+            real = "P"
+        except Exception:  # noqa: BLE001
+            real = "O"
+        ctx.count("parselen", c, True, "hex4" if i < nvalid else real[:2])
+        if o != real:
+            ctx.disagree("parselen", {"sizestr": hx(c)}, o, real)
+        # oracle: exactly-four-hex-digits <=> a length in [0, 65535]; everything else a protocol error
+        is_hex4 = len(c) == 4 and all(x in HEXCHARS for x in c)
+        exp = f"ok {int(c, 16)}" if is_hex4 else "P"
+        if real != exp:
+            ctx.oracle_fail("parselen", {"sizestr": hx(c)}, f"_parse_pkt_line_length({c!r}) -> {real}, expected {exp}")
+    ctx.extra_cov["parselen_hex4_exhaustive"] = nvalid
+
+
+def _stream_roundtrip(ctx):
+    """Payload sequences (in range for one frame) x random partitions through all decoders."""
+    rng = ctx.rng
+    pend = []
+    n = ctx.budget(350)
+    nbig = ctx.budget(10, mult=5)
+    seqs = [("seq", gen_seq(rng)) for _ in range(n)] + [("big", gen_seq(rng, big_ok=True, maxlen=4)) for _ in range(nbig)]
+    # fixed boundary cases of the quantifier: empty, 1 byte, 65515, 65516 bytes; flush/delim mixes
+    seqs += [("fixed", s) for s in ([], [None], [b""], [b"a"], [b"", b""], [None, None], [b"a", None, b"", b"b"],
+                                    [b"x" * 65515], [b"y" * 65516], [b"z" * 65516, None, b"w" * 65515, b"", b"q"])]
+    for kind, ps in seqs:
+        data = _enc(ps)
+        bounds = frame_boundaries(ps)
+        for _ in range(2 if kind != "seq" else 1):
+            mode, chunks = random_partition(rng, data, bounds)
+            pend += _check_decoders(ctx, "rt", data, chunks, ps=ps, tag=f"{kind}:{mode}")
+        if len(ctx.samples) < 2 and kind == "seq" and ps:
+            ctx.sample({"stream": "rt", "payloads": [None if p is None else hx(p)[:40] for p in ps],
+                        "chunk_sizes": [len(c) for c in chunks][:20]})
+    _flush_pending(ctx, pend)
+
+
+def _stream_exhaustive(ctx):
+    """ALL partitions of short encoded streams (<= 12 bytes; 13 in thorough) through ReceivableProtocol,
+    the buffered Protocol and PktLineParser."""
+    streams = [
+        ("valid", [b"a", None]), ("valid", [b"", b"ab"]), ("valid", [None, b"abcd"]), ("valid", [b"0000"]),
+        ("valid", [b"a", b"b"]), ("valid", [None, None, None]),
+    ]
+    raw = [("delim", b"00010005a"), ("trunc", b"0009abc"), ("bad", b"0005a00g0"), ("short-len", b"0005a0003"),
+           ("upper", b"000Aabcdef"), ("sign", b"-0010005a"), ("tail", b"0005a000")]
+    if ctx.thorough:
+        streams.append(("valid", [b"abcde", None]))
+        raw.append(("trunc", b"0005a000dabcd"))
+    pend = []
+    total = 0
+    for kind, ps in streams:
+        data = _enc(ps)
+        assert len(data) <= 13
+        for chunks in all_partitions(data):
+            pend += _check_decoders(ctx, "exh", data, chunks, ps=ps, tag=kind, exhaustive=True)
+            total += 1
+    for kind, data in raw:
+        for chunks in all_partitions(data):
+            pend += _check_decoders(ctx, "exh", data, chunks, ps=None, tag=kind, exhaustive=True)
+            total += 1
+    ctx.extra_cov["exhaustive_partitions"] = total
+    _flush_pending(ctx, pend)
+
+
+def _stream_malformed(ctx):
+    """Arbitrary / mutated byte strings: every decoder must yield frames then a protocol error (or a clean
+    end), never anything else, for every chunking; plus empty fragments (premature EOF) for the model tie."""
+    rng = ctx.rng
+    pend = []
+    for _ in range(ctx.budget(500)):
+        ps = gen_seq(rng, maxlen=4)
+        kind, data = mutate_stream(rng, _enc(ps))
+        mode, chunks = random_partition(rng, data, frame_boundaries(ps))
+        pend += _check_decoders(ctx, "mal", data, chunks, ps=None, tag=f"{kind}")
+    # premature EOF from recv (empty fragment) / parse(b""): correspondence only
+    for _ in range(ctx.budget(120)):
+        ps = gen_seq(rng, maxlen=4)
+        data = _enc(ps)
+        mode, chunks = random_partition(rng, data, frame_boundaries(ps))
+        k = rng.randint(0, len(chunks))
+        chunks = chunks[:k] + [b""] + chunks[k:]
+        r_rp, _ = real_read_rp(chunks)
+        pend.append((f"c19.rpread{drv_chunks(chunks)}", r_rp, "mal.rp-eof", {"stream_hex": hx(data)[:400], "chunk_sizes": [len(c) for c in chunks]}, "ReceivableProtocol"))
+        ctx.count("mal.rp-eof", (data, tuple(len(c) for c in chunks)), True, "empty-fragment")
+        if r_rp.endswith("O") and b"" not in [p for p in ps]:
+            ctx.oracle_fail("mal.rp-eof", {"stream_hex": hx(data)[:400], "chunk_sizes": [len(c) for c in chunks]},
+                            f"premature EOF produced a non-protocol error: {_short(r_rp)}")
+        r_ps = real_parse(chunks)
+        pend.append((f"c19.parse{drv_chunks(chunks)}", r_ps, "mal.parse-empty", {"stream_hex": hx(data)[:400], "chunk_sizes": [len(c) for c in chunks]}, "PktLineParser"))
+        ctx.count("mal.parse-empty", (data, tuple(len(c) for c in chunks)), True, "empty-fragment")
+        if r_ps != expect_parser(data):
+            ctx.oracle_fail("mal.parse-empty", {"stream_hex": hx(data)[:400], "chunk_sizes": [len(c) for c in chunks]},
+                            f"parse(b'') changed the result: {_short(r_ps)}")
+    _flush_pending(ctx, pend)
+
+
+def _stream_rpops(ctx):
+    """Mixed ReceivableProtocol.read / .recv calls over fragment schedules: model vs real, and the direct
+    oracle (the calls return consecutive pieces of the stream; read() is exact unless EOF; recv() returns
+    1..size bytes unless EOF)."""
+    from dulwich.protocol import ReceivableProtocol
+    rng = ctx.rng
+    lines, meta = [], []
+    for _ in range(ctx.budget(400)):
+        data = rng.randbytes(rng.choice([0, 1, 5, 20, 60, 200]))
+        _, chunks = random_partition(rng, data, [rng.randrange(1, len(data) + 1) for _ in range(3)] if data else [])
+        rbufsize = rng.choice([1, 2, 3, 4, 8, 16, 65536])
+        ops = []
+        for _ in range(rng.randint(1, 12)):
+            ops.append(rng.choice("rv") + str(rng.choice([1, 1, 2, 3, 4, 5, 8, 16, 17, 64])))
+        if rng.random() < 0.05:
+            ops.insert(rng.randrange(len(ops) + 1), rng.choice(["r0", "v0"]))
+        p = ReceivableProtocol(make_recv(chunks), lambda b: None, rbufsize=rbufsize)
+        outs, pos, ok = [], 0, True
+        for op in ops:
+            n = int(op[1:])
+            try:
+                got = p.read(n) if op[0] == "r" else p.recv(n)
+            except AssertionError:
+                outs.append("A")
+                if n != 0:
+                    ctx.oracle_fail("rpops", {"data": hx(data), "chunks": [len(c) for c in chunks], "ops": ops, "rbufsize": rbufsize},
+                                    f"{op} raised AssertionError")
+                break
+            outs.append(hx(got))
+            rest = data[pos:]
+            if op[0] == "r":
+                exp_ok = got == rest[:n]
+            else:
+                exp_ok = rest.startswith(got) and len(got) <= n and (len(got) >= 1 or not rest)
+            if not exp_ok and ok:
+                ok = False
+                ctx.oracle_fail("rpops", {"data": hx(data), "chunks": [len(c) for c in chunks], "ops": ops, "rbufsize": rbufsize},
+                                f"{op} returned {got!r}; stream position {pos}, remaining {rest[:n + 4]!r}")
+            pos += len(got)
+        lines.append(f"c19.rpops {rbufsize} {','.join(ops)}{drv_chunks(chunks)}")
+        meta.append(({"data": hx(data), "chunks": [len(c) for c in chunks], "ops": ops, "rbufsize": rbufsize}, " ".join(outs)))
+        ctx.count("rpops", (data, tuple(len(c) for c in chunks), tuple(ops), rbufsize), True, f"rbuf{rbufsize}")
+    for (case, real), o in zip(meta, ctx.driver.batch(lines)):
+        if o != real:
+            ctx.disagree("rpops", case, o, real, "ReceivableProtocol.read/recv")
+
+
+def _run_script_real(data: bytes, ops):
+    from dulwich.protocol import Protocol
+    from dulwich.errors import GitProtocolError, HangupException
+    p = Protocol(io.BytesIO(data).read, lambda b: None)
+    outs = []
+    for op in ops:
+        try:
+            if op == "r":
+                outs.append(show_pkt(p.read_pkt_line()))
+            elif op == "e":
+                outs.append("1" if p.eof() else "0")
+            elif op == "s":
+                got = []
+                try:
+                    for x in p.read_pkt_seq():
+                        got.append(x)
+                except HangupException:
+                    outs.append(show_list(got) + "H")
+                    continue
+                except GitProtocolError:
+                    outs.append(show_list(got) + "P")
+                    break
+                outs.append(show_list(got))
+            else:
+                arg = op[2:]
+                try:
+                    p.unread_pkt_line(None if arg == "N" else unhx(arg))
+                    outs.append("ok")
+                except ValueError:
+                    outs.append("V")
+        except HangupException:
+            outs.append("H")
+        except GitProtocolError:
+            outs.append("P")
+            break
+        except Exception:  # noqa: BLE001
+            outs.append("O")
+            break
+    return " ".join(outs)
+
+
+def _stream_script(ctx):
+    """read_pkt_line / eof / unread_pkt_line / read_pkt_seq scripts: model vs real; oracle: interleaving
+    eof() probes never changes the decoded payload sequence."""
+    rng = ctx.rng
+    lines, meta = [], []
+    for _ in range(ctx.budget(400)):
+        ps = gen_seq(rng, maxlen=5)
+        data = _enc(ps)
+        if rng.random() < 0.25:
+            _, data = mutate_stream(rng, data)
+            ps = None
+        ops = []
+        for _ in range(rng.randint(1, 10)):
+            k = rng.random()
+            if k < 0.45:
+                ops.append("r")
+            elif k < 0.7:
+                ops.append("e")
+            elif k < 0.8:
+                ops.append("s")
+            else:
+                ops.append("u:" + rng.choice(["N", "-", "61", hx(rng.randbytes(3)), "30303030"]))
+        real = _run_script_real(data, ops)
+        lines.append(f"c19.script {hx(data)} {','.join(ops)}")
+        meta.append(({"stream_hex": hx(data), "ops": ops}, real))
+        ctx.count("script", (data, tuple(ops)), True, "valid" if ps is not None else "mutated")
+        if ps is not None:
+            # oracle: eof() before every read is transparent
+            n = len(ps)
+            probe = _run_script_real(data, ["e", "r"] * n + ["e"])
+            want = " ".join(x for p in ps for x in ("0", show_pkt(p))) + (" " if n else "") + "1"
+            if probe != want:
+                ctx.oracle_fail("script.eof", {"stream_hex": hx(data), "payload_lens": [None if p is None else len(p) for p in ps]},
+                                f"eof()/read_pkt_line interleaving returned {_short(probe)}, expected {_short(want)}")
+    for (case, real), o in zip(meta, ctx.driver.batch(lines)):
+        if o != real:
+            ctx.disagree("script", case, o, real, "Protocol(BytesIO)")
+
+
+def _sideband_real(writes):
+    from dulwich.protocol import Protocol
+    frames = []
+    p = Protocol(None, frames.append)
+    per = []
+    for ch, blob in writes:
+        k = len(frames)
+        p.write_sideband(ch, blob)
+        per.append(frames[k:])
+    return frames, per
+
+
+def _stream_sideband(ctx):
+    """write_sideband split (65515) and reassembly through read_pkt_seq + _read_side_band64k_data, three
+    channels, boundary blob sizes; every frame must be a well-formed frame within git's limit."""
+    from dulwich.protocol import Protocol, ReceivableProtocol
+    from dulwich.client import _read_side_band64k_data
+    rng = ctx.rng
+    sizes_small = [0, 1, 2, 100, 5000]
+    sizes_big = [65514, 65515, 65516, 65519, 65520, 65521, 131029, 131030, 131031, 200000]
+    scen = []
+    for _ in range(ctx.budget(40)):
+        scen.append([(rng.choice([1, 2, 3]), mk_blob(rng, rng.choice(sizes_small))) for _ in range(rng.randint(1, 5))])
+    nb = ctx.budget(6, mult=4)
+    for i in range(nb):
+        scen.append([(rng.choice([1, 2, 3]), mk_blob(rng, sizes_big[(i + ctx.seed) % len(sizes_big)])),
+                     (rng.choice([1, 2, 3]), mk_blob(rng, rng.choice(sizes_small)))])
+    scen.append([(1, mk_blob(rng, 65515)), (2, mk_blob(rng, 65516)), (3, mk_blob(rng, 0))])
+    _sideband_cases(ctx, scen)
+
+
+def _sideband_cases(ctx, scen, model=True):
+    from dulwich.protocol import Protocol, ReceivableProtocol
+    from dulwich.client import _read_side_band64k_data
+    rng = ctx.rng
+    lines, meta = [], []
+    for spec_writes in scen:
+        writes = [(ch, b) for ch, (spec, b) in spec_writes]
+        frames, per = _sideband_real(writes)
+        case = {"writes": [[ch, spec] for ch, (spec, b) in spec_writes]}
+        for (ch, blob), fr in zip(writes, per):
+            lines.append(f"c19.sideband {ch} {hx(blob)}")
+            meta.append((dict(case, channel=ch, blob_len=len(blob)), "none" if not fr else " ".join(hx(f) for f in fr)))
+            ctx.count("sideband.write", (ch, blob), True, f"{min(len(blob) // 65515, 4)}x+{'0' if len(blob) % 65515 == 0 else 'r'}")
+        # oracle 1: frames well-formed and within git's limit
+        for f in frames:
+            frs, end, _ = ref_decode(f)
+            if end != "eof" or len(frs) != 1 or frs[0][0] != "data" or len(f) > GIT_LARGE_PACKET_MAX:
+                ctx.oracle_fail("sideband.frame", dict(case, frame_len=len(f), frame_prefix=f[:8].decode("latin1")),
+                                f"write_sideband emitted a {len(f)}-byte write that is not one well-formed frame <= {GIT_LARGE_PACKET_MAX}")
+        # oracle 2: reassembly per channel through the real reader, under a random chunking
+        data = b"".join(frames) + b"0000"
+        _, chunks = random_partition(rng, data, [])
+        for name, proto in (("Protocol", Protocol(io.BytesIO(data).read, None)),
+                            ("ReceivableProtocol", ReceivableProtocol(make_recv(chunks), None))):
+            try:
+                got = list(_read_side_band64k_data(proto.read_pkt_seq()))
+            except Exception as e:  # noqa: BLE001
+                ctx.oracle_fail("sideband.reassembly", dict(case, decoder=name), f"side-band read raised {type(e).__name__}: {e}")
+                continue
+            ctx.count("sideband.reassembly", (name, tuple((ch, blob) for ch, blob in writes)), True, name)
+            for ch in (1, 2, 3):
+                a = b"".join(d for c, d in got if c == ch)
+                b = b"".join(blob for c, blob in writes if c == ch)
+                if a != b:
+                    ctx.oracle_fail("sideband.reassembly", dict(case, decoder=name, channel=ch),
+                                    f"channel {ch}: reassembled {len(a)} bytes != written {len(b)} bytes")
+            if [c for c, _ in got] != [ch for ch, blob in writes for _ in range((len(blob) + 65514) // 65515)] and \
+                    all(len(f) <= GIT_LARGE_PACKET_MAX for f in frames):
+                ctx.oracle_fail("sideband.reassembly", dict(case, decoder=name), "channel order changed")
+        # demux model tie on the decoded packet list (+ an empty packet now and then: TypeError)
+        pk = [f[4:] for f in frames][:6]
+        if rng.random() < 0.2:
+            pk.insert(rng.randrange(len(pk) + 1), b"")
+        try:
+            real = list(_read_side_band64k_data(iter(pk)))
+            real = "none" if not real else " ".join(f"{c}:{hx(d)}" for c, d in real)
+        except TypeError:
+            real = "T"
+        lines.append("c19.demux" + drv_chunks(pk))
+        meta.append((dict(case, demux=True), real))
+        ctx.count("sideband.demux", tuple(pk), True, real[:1])
+    if not model:
+        return
+    for (case, real), o in zip(meta, ctx.driver.batch(lines)):
+        if o != real:
+            ctx.disagree("sideband", case, _short(o, 300), _short(real, 300), "Protocol.write_sideband")
+
+
+def _stream_bufwriter(ctx):
+    """BufferedPktLineWriter: exact sequence of underlying writes (model vs real, including the `_len`
+    slip) and the oracle: the bytes written, concatenated, are the pkt-line encoding of what was written;
+    end to end through side-band channel 1 and PktLineParser as receive-pack's status report does."""
+    from dulwich.protocol import BufferedPktLineWriter, Protocol, PktLineParser, pkt_line
+    from dulwich.client import _read_side_band64k_data
+    rng = ctx.rng
+    scen = []
+    for i in range(ctx.budget(250)):
+        big = i % 40 == 0
+        bufsize = 65515 if big else rng.choice([1, 4, 5, 6, 9, 12, 16, 33, 100])
+        scen.append((bufsize, [mk_blob(rng, rng.choice([0, 1, 2, 3, 5, 8, 13, 30] if not big else [10, 30000, 65000, 65516, 100]))
+                               for _ in range(rng.randint(0, 8))]))
+    _bufwriter_cases(ctx, scen)
+
+
+def _bufwriter_cases(ctx, scen, model=True):
+    from dulwich.protocol import BufferedPktLineWriter, Protocol, PktLineParser, pkt_line
+    from dulwich.client import _read_side_band64k_data
+    lines, meta = [], []
+    for bufsize, specs in scen:
+        big = bufsize > 1000
+        datas = [b for _, b in specs]
+        outs = []
+        w = BufferedPktLineWriter(outs.append, bufsize=bufsize)
+        for d in datas:
+            w.write(d)
+        w.flush()
+        case = {"bufsize": bufsize, "data_lens": [len(d) for d in datas], "datas": [sp for sp, _ in specs]}
+        lines.append(f"c19.bufwriter {bufsize}{drv_chunks(datas)}")
+        meta.append((case, "none" if not outs else " ".join(hx(o) for o in outs)))
+        ctx.count("bufwriter", (bufsize, tuple(datas)), True, "default-bufsize" if big else "small-bufsize")
+        if b"".join(outs) != b"".join(pkt_line(d) for d in datas):
+            ctx.oracle_fail("bufwriter", case, "bytes handed to the underlying writer != concatenated pkt-lines")
+        # end to end: writer -> side-band 1 -> wire -> read_pkt_seq -> demux -> PktLineParser
+        frames = []
+        proto = Protocol(None, frames.append)
+        w = BufferedPktLineWriter(lambda d: proto.write_sideband(1, d), bufsize=bufsize)
+        for d in datas:
+            w.write(d)
+        w.flush()
+        wire = b"".join(frames) + b"0000"
+        got = []
+        ps = PktLineParser(got.append)
+        try:
+            for ch, d in _read_side_band64k_data(Protocol(io.BytesIO(wire).read, None).read_pkt_seq()):
+                ps.parse(d)
+            if got != datas or ps.get_tail() != b"":
+                ctx.oracle_fail("bufwriter.e2e", case, f"nested framing decoded {len(got)} packets, tail {ps.get_tail()[:8]!r}")
+        except Exception as e:  # noqa: BLE001
+            ctx.oracle_fail("bufwriter.e2e", case, f"nested framing raised {type(e).__name__}: {e}")
+    if not model:
+        return
+    for (case, real), o in zip(meta, ctx.driver.batch(lines)):
+        if o != real:
+            ctx.disagree("bufwriter", case, _short(o, 300), _short(real, 300), "BufferedPktLineWriter")
+
+
+WS = b" \t\n\r\x0b\x0c"
+
+
+def caps_class(caps):
+    """Failing-input classes of the capability round trip (None = must round-trip)."""
+    if caps is None:
+        return None
+    if caps == []:
+        return "caps:empty-list"
+    if caps == [b""]:
+        return None
+    first, last = caps[0], caps[-1]
+    if first == b"" or last == b"" or first[:1] in WS_SET or last[-1:] in WS_SET:
+        return "caps:edge-token-empty-or-ascii-whitespace"
+    return None
+
+
+WS_SET = {bytes([c]) for c in WS}
+
+
+def gen_token(rng, alpha):
+    return bytes(rng.choice(alpha) for _ in range(rng.choice([0, 1, 1, 2, 3, 8, 20])))
+
+
+def _stream_caps(ctx):
+    """format_ref_line / extract_capabilities / extract_want_line_capabilities: model vs real on formatted
+    and on arbitrary lines; oracle: capability lists and ref lines survive the round trip (contents
+    without NUL/LF; SP is the list separator and excluded from tokens like NUL/LF are)."""
+    from dulwich.protocol import extract_capabilities, extract_want_line_capabilities, format_ref_line
+    rng = ctx.rng
+    A_PLAIN = b"abcxyz019-_=:/.^{}"
+    A_FULL = bytes(b for b in range(1, 256) if b not in (0, 10, 32))          # the quantifier: no NUL/LF (+ no SP)
+    A_WSY = b"ab=\t\r\x0b\x0c"
+    lines, meta = [], []
+
+    def add(line, case, real):
+        lines.append(line)
+        meta.append((case, real))
+
+    def real_extract(fn, text):
+        try:
+            t, c = fn(text)
+            return f"{hx(t)} {show_list(c)}"
+        except ValueError:
+            return "V"
+
+    for i in range(ctx.budget(600)):
+        alpha = rng.choice([A_PLAIN, A_PLAIN, A_FULL, A_WSY])
+        sha = bytes(rng.choice(b"0123456789abcdef") for _ in range(rng.choice([40, 64])))
+        ref = b"refs/" + gen_token(rng, rng.choice([A_PLAIN, bytes(b for b in range(1, 256) if b != 10)]))
+        k = rng.random()
+        if k < 0.1:
+            caps = None
+        elif k < 0.15:
+            caps = []
+        else:
+            caps = [gen_token(rng, alpha) or (b"" if rng.random() < 0.15 else b"c") for _ in range(rng.randint(1, 6))]
+        line = format_ref_line(ref, sha, caps)
+        case = {"ref": hx(ref), "sha": sha.decode(), "caps": None if caps is None else [hx(c) for c in caps]}
+        add(f"c19.caps.refline {hx(ref)} {hx(sha)} {'N' if caps is None else show_list(caps)}", case, hx(line))
+        real = real_extract(extract_capabilities, line)
+        add(f"c19.caps.extract {hx(line)}", case, real)
+        cls = caps_class(caps)
+        ctx.count("caps.refline", (ref, sha, None if caps is None else tuple(caps)), True, cls or ("no-caps" if caps is None else "wf"))
+        # oracle
+        if b"\0" in ref:
+            pass  # outside the quantifier (ref alphabet excludes NUL)
+        elif caps is None:
+            if real != f"{hx(line)} []":
+                ctx.oracle_fail("caps.roundtrip", case, f"line without capabilities came back as {real}")
+        else:
+            want = f"{hx(sha + b' ' + ref)} {show_list(caps)}"
+            if real != want:
+                ctx.oracle_fail("caps.roundtrip", case,
+                                f"extract_capabilities(format_ref_line(ref, sha, caps)) = {_short(real)}, expected {_short(want)}", cls)
+        # want line: "want <sha> cap cap...\n" as the client writes it
+        if caps:
+            wl = b"want " + sha + b" " + b" ".join(caps) + b"\n"
+            realw = real_extract(extract_want_line_capabilities, wl)
+            add(f"c19.caps.want {hx(wl)}", dict(case, want_line=True), realw)
+            wantw = f"{hx(b'want ' + sha)} {show_list(caps)}"
+            wcls = None
+            if caps[-1] == b"" or caps[-1][-1:] in WS_SET:
+                wcls = "caps:edge-token-empty-or-ascii-whitespace"
+            ctx.count("caps.want", (sha, tuple(caps)), True, wcls or "wf")
+            if realw != wantw:
+                ctx.oracle_fail("caps.want-roundtrip", dict(case, want_line=True),
+                                f"extract_want_line_capabilities = {_short(realw)}, expected {_short(wantw)}", wcls)
+    # arbitrary lines (model tie; ValueError on several NULs is modelled, outside the quantifier)
+    A_ARB = b"ab \0\n\t\r"
+    arb = [bytes(t) for n in range(0, 5) for t in itertools.product(b"a \0\n", repeat=n)]
+    arb += [bytes(rng.choice(A_ARB) for _ in range(rng.randint(0, 14))) for _ in range(ctx.budget(600))]
+    for t in arb:
+        add(f"c19.caps.extract {hx(t)}", {"text": hx(t)}, real_extract(extract_capabilities, t))
+        add(f"c19.caps.want {hx(t)}", {"text": hx(t), "want_line": True}, real_extract(extract_want_line_capabilities, t))
+        ctx.count("caps.arbitrary", t, True, f"nul{min(t.count(0), 2)}")
+    for (case, real), o in zip(meta, ctx.driver.batch(lines)):
+        if o != real:
+            ctx.disagree("caps", case, _short(o, 300), _short(real, 300), "protocol.extract_*/format_ref_line")
+
+
+class _RecHash:
+    def __init__(self, h):
+        self.h = h
+        self.data = bytearray()
+
+    def update(self, b):
+        self.data += b
+
+    def digest(self):
+        return bytes(self.h)
+
+
+def _stream_trailer(ctx):
+    """PackStreamReader._read under arbitrary read sizes: hashed ++ trailer == everything read and the
+    trailer is the last hash_size bytes (model vs real + oracle)."""
+    from dulwich.pack import PackStreamReader
+    rng = ctx.rng
+    lines, meta = [], []
+    for _ in range(ctx.budget(300)):
+        h = rng.choice([20, 32, 1, 2, 3, 5])
+        data = rng.randbytes(rng.choice([0, 1, h - 1, h, h + 1, 2 * h, 2 * h + 1, 100]))
+        _, chunks = random_partition(rng, data, [h, len(data) - h, len(data) - h + 1])
+        if rng.random() < 0.3:
+            chunks.insert(rng.randrange(len(chunks) + 1), b"")
+        r = PackStreamReader(lambda: _RecHash(h), None)
+        it = iter(chunks)
+        for c in chunks:
+            r._read(lambda size: next(it), len(c))
+        real = f"{hx(bytes(r.sha.data))} {hx(bytes(r._trailer))}"
+        case = {"hash_size": h, "data": hx(data), "chunk_sizes": [len(c) for c in chunks]}
+        lines.append(f"c19.trailer {h}{drv_chunks(chunks)}")
+        meta.append((case, real))
+        ctx.count("trailer", (h, data, tuple(len(c) for c in chunks)), True, f"h{h}")
+        if bytes(r.sha.data) + bytes(r._trailer) != data or len(r._trailer) != min(h, len(data)):
+            ctx.oracle_fail("trailer", case, "hashed ++ trailer != bytes read, or trailer is not the last hash_size bytes")
+    for (case, real), o in zip(meta, ctx.driver.batch(lines)):
+        if o != real:
+            ctx.disagree("trailer", case, o, real, "PackStreamReader._read")
+
+
+def _stream_oversize(ctx):
+    """Payloads that do not fit one frame (65517 ... and above): pkt_line / write_pkt_line must split or
+    refuse; what comes out must not be a malformed frame.  Also what the decoders make of it."""
+    from dulwich.protocol import Protocol, pkt_line
+    rng = ctx.rng
+    sizes = list(OVERSIZE) if ctx.thorough else [65517, 65520, 65531, 65532, rng.choice(OVERSIZE)]
+    pend = []
+    for n in sizes:
+        payload = bytes([rng.randrange(256)]) * n
+        try:
+            fr = pkt_line(payload)
+        except Exception:  # noqa: BLE001  refused: fine
+            ctx.count("oversize", n, True, "refused")
+            continue
+        ctx.count("oversize", n, True, "emitted")
+        _oracle_frame(ctx, "oversize", payload, fr)
+        out = []
+        try:
+            Protocol(None, out.append).write_pkt_line(payload)
+            for f in out:
+                if len(f) > GIT_LARGE_PACKET_MAX:
+                    _oracle_frame(ctx, "oversize.write_pkt_line", payload, f)
+        except Exception:  # noqa: BLE001
+            pass
+        # model tie for what the decoders do with the frame that was emitted
+        r, _ = real_read_blocking(fr)
+        pend.append((f"c19.read {hx(fr)}", r, "oversize.read", {"payload_len": n, "payload_byte": payload[:1].hex()}, "Protocol(BytesIO)"))
+        pend.append((f"c19.pktline {hx(payload)}", hx(fr), "oversize.pktline", {"payload_len": n, "payload_byte": payload[:1].hex()}, "pkt_line"))
+    _flush_pending(ctx, pend)
+
+
+def _git_repo(ctx):
+    d = ctx.scratch / "gitpeer"
+    if (d / "ok").exists():
+        return d
+    env = core.clean_env()
+    d.mkdir(parents=True, exist_ok=True)
+
+    def g(*a):
+        rc, out = core.sh(["git", "-C", str(d)] + list(a), env=env, timeout=60)
+        if rc != 0:
+            raise core.InfraError(f"git {' '.join(a)} failed: {out[-400:]}")
+    rc, out = core.sh(["git", "init", "-q", str(d)], env=env, timeout=60)
+    if rc != 0:
+        raise core.InfraError("git init failed: " + out[-400:])
+    g("commit", "-q", "--allow-empty", "-m", "one")
+    for i in range(12):
+        g("branch", f"b{i}")
+    g("tag", "-a", "-m", "t", "v1")
+    (d / "ok").write_text("1")
+    return d
+
+
+def _stream_gitpeer(ctx):
+    """C git 2.39 as a peer: (a) git's own pkt-line stream (ref advertisement with capabilities) through
+    dulwich's decoders under chunking, and re-encoded byte-identically; (b) dulwich-framed protocol-v2
+    requests, with frames at the size limits, parsed by git upload-pack."""
+    import os
+    from dulwich.protocol import extract_capabilities, pkt_line
+    rng = ctx.rng
+    repo = _git_repo(ctx)
+    env = core.clean_env()
+    p = subprocess.run(["git", "upload-pack", "--advertise-refs", str(repo)], stdout=subprocess.PIPE, stderr=subprocess.PIPE, env=env, timeout=60)
+    if p.returncode != 0:
+        raise core.InfraError("git upload-pack --advertise-refs failed: " + p.stderr.decode(errors="replace")[-300:])
+    adv = p.stdout
+    frames, end, _ = ref_decode(adv)
+    pend = []
+    for _ in range(ctx.budget(6)):
+        _, chunks = random_partition(rng, adv, [])
+        pend += _check_decoders(ctx, "gitpeer.adv", adv, chunks, ps=None, tag="git-advert")
+    _flush_pending(ctx, pend)
+    pay = [None if f[0] != "data" else f[1] for f in frames]
+    ctx.count("gitpeer.reencode", adv, True, "advert")
+    if end != "eof" or _enc(pay) != adv:
+        ctx.oracle_fail("gitpeer.reencode", {"advert_len": len(adv)}, "pkt_line re-encoding of git's ref advertisement differs from git's bytes")
+    if pay and pay[0]:
+        first = pay[0]
+        try:
+            text, caps = extract_capabilities(first)
+            # git: "<sha> <ref>\0<cap> <cap>...\n"
+            ref_caps = first.split(b"\0", 1)[1].rstrip(b"\n").split(b" ")
+            ctx.count("gitpeer.caps", first, True, f"{len(caps)} caps")
+            if caps != ref_caps or text != first.split(b"\0", 1)[0]:
+                ctx.oracle_fail("gitpeer.caps", {"line": hx(first)}, "extract_capabilities disagrees with git's advertised capability list")
+            o = ctx.driver.batch([f"c19.caps.extract {hx(first)}"])[0]
+            if o != f"{hx(text)} {show_list(caps)}":
+                ctx.disagree("gitpeer.caps", {"line": hx(first)}, o, f"{hx(text)} {show_list(caps)}")
+        except ValueError as e:
+            ctx.oracle_fail("gitpeer.caps", {"line": hx(first)}, f"extract_capabilities raised {e}")
+    # (b) git parses what dulwich framed
+    env2 = dict(env, GIT_PROTOCOL="version=2")
+    sizes = [1, 100, 65515, 65516] + ([65000, 4096, 65514] if ctx.thorough else [])
+    for n in sizes:
+        pad = b"agent=" + b"x" * (n - 7) + b"\n" if n >= 8 else b"agent=y\n"
+        req = pkt_line(b"command=ls-refs\n") + pkt_line(pad) + b"0001" + pkt_line(b"peel\n") + pkt_line(b"ref-prefix refs/heads/\n") + pkt_line(None)
+        q = subprocess.run(["git", "upload-pack", "--stateless-rpc", str(repo)], input=req, stdout=subprocess.PIPE, stderr=subprocess.PIPE, env=env2, timeout=60)
+        ctx.count("gitpeer.request", n, True, f"caplen{len(pad)}")
+        fr2, end2, _ = ref_decode(q.stdout)
+        if q.returncode != 0 or end2 != "eof" or not fr2 or fr2[-1] != ("flush",):
+            ctx.oracle_fail("gitpeer.request", {"cap_line_len": len(pad)},
+                            f"git upload-pack rejected a dulwich-framed request: rc={q.returncode} {q.stderr.decode(errors='replace')[:200]}")
+            continue
+        # and dulwich reads git's answer (13 refs) under chunking
+        _, chunks = random_partition(rng, q.stdout, [])
+        r, _ = real_read_rp(chunks)
+        exp, _ = expect_reader(q.stdout, True)
+        if r != exp:
+            ctx.oracle_fail("gitpeer.request", {"cap_line_len": len(pad)}, f"ReceivableProtocol misreads git's ls-refs answer: {_short(r)}")
+
+
+def _fingerprints(ctx):
+    """Adaptive depth: anchored functions whose AST changed since the pinned commit get a bigger budget
+    (never a verdict by itself)."""
+    import os
+    try:
+        tree = T.module_ast(core.REPO / "dulwich" / "protocol.py")
+        cur = {q: T.fingerprint(T.find_def(tree, q)) for q in FP_FUNCS}
+    except Exception as e:  # noqa: BLE001
+        ctx.notes.append(f"fingerprinting failed: {e}")
+        return
+    changed = sorted(q for q in FP_FUNCS if BASE_FP.get(q) not in (None, cur[q]))
+    ctx.extra_cov["anchored_functions_changed"] = changed
+    if changed and "VERIF_BUDGET_SCALE" not in os.environ:
+        os.environ["VERIF_BUDGET_SCALE"] = "4"
+        ctx.notes.append(f"anchored functions changed since the pinned commit: {changed}; budgets x4")
+
+
+def _run_corpus(ctx):
+    """Known witnesses first: every known finding's minimal case is re-run against the real code."""
+    from dulwich.protocol import pkt_line, format_ref_line, extract_capabilities, extract_want_line_capabilities
+    d = core.VERIF / "corpus" / "C19"
+    if not d.exists():
+        return
+    pend = []
+    for f in sorted(d.glob("*.json")):
+        c = json.loads(f.read_text())
+        kind = c.get("kind")
+        ctx.count("corpus", f.stem, True, kind)
+        if kind == "pkt_line-oversize":
+            payload = bytes([int(c.get("payload_byte", "00"), 16)]) * c["payload_len"]
+            try:
+                fr = pkt_line(payload)
+            except Exception:  # noqa: BLE001
+                continue
+            _oracle_frame(ctx, "corpus", payload, fr)
+        elif kind == "decoders":
+            data = unhx(c["stream_hex"])
+            chunks = split_at(data, list(itertools.accumulate(c.get("chunk_sizes", [len(data)]))))
+            pend += _check_decoders(ctx, "corpus", data, chunks, ps=None, tag=f.stem)
+        elif kind == "caps":
+            caps = [unhx(x) for x in c["caps"]]
+            ref, sha = unhx(c["ref"]), c["sha"].encode()
+            line = format_ref_line(ref, sha, caps)
+            try:
+                t, got = extract_capabilities(line)
+            except ValueError:
+                t, got = None, None
+            if (t, got) != (sha + b" " + ref, caps):
+                ctx.oracle_fail("corpus", c, f"extract_capabilities(format_ref_line(...)) returned caps {got}", caps_class(caps))
+        elif kind == "want-caps":
+            caps = [unhx(x) for x in c["caps"]]
+            sha = c["sha"].encode()
+            t, got = extract_want_line_capabilities(b"want " + sha + b" " + b" ".join(caps) + b"\n")
+            if (t, got) != (b"want " + sha, caps):
+                ctx.oracle_fail("corpus", c, f"extract_want_line_capabilities returned caps {got}",
+                                "caps:edge-token-empty-or-ascii-whitespace" if caps and (caps[-1] == b"" or caps[-1][-1:] in WS_SET) else None)
+    _flush_pending(ctx, pend)
+
+
+def run(ctx: core.Ctx):
+    ctx.assumptions += [
+        "transport contract: Protocol's `read(n)` blocks until n bytes or EOF (file-like; BytesIO, BufferedReader over "
+        "a short-reading raw stream); ReceivableProtocol's `recv(n)` returns 1..n bytes, b'' only at EOF — the "
+        "theorems quantify over every fragment list with non-empty fragments",
+        "git's LARGE_PACKET_MAX = 65520 (pkt-line.h / protocol-common) is an external constant of the wire format",
+        "CPython semantics of bytes slicing with negative indices, str.format ':04x', bytes.strip/split, io.BytesIO",
+        "SP is the capability-list separator: tokens containing SP are excluded from the round-trip domain like NUL/LF",
+    ]
+    _fingerprints(ctx)
+    _run_corpus(ctx)
+    _stream_prefix(ctx)
+    _stream_parselen(ctx)
+    _stream_exhaustive(ctx)
+    _stream_roundtrip(ctx)
+    _stream_malformed(ctx)
+    _stream_rpops(ctx)
+    _stream_script(ctx)
+    _stream_sideband(ctx)
+    _stream_bufwriter(ctx)
+    _stream_caps(ctx)
+    _stream_trailer(ctx)
+    _stream_oversize(ctx)
+    _stream_gitpeer(ctx)
+
+
+BASE_FP: dict = {}
+
+
+# ------------------------------------------------------------------------------------------------
+# failing-input search and replay
+
+def _oracle_only_decoders(ctx, stream, data, chunks, ps=None):
+    """_check_decoders without the model comparison."""
+    _check_decoders(ctx, stream, data, chunks, ps=ps, tag="search")
+
+
+def search(ctx: core.Ctx):
+    """A proof obligation, the translator or the correspondence broke and the ordinary run saw no oracle
+    failure: hit the direct oracle harder — first around the disagreeing cases (all partitions when short,
+    many random ones otherwise), then every oracle-bearing stream again with a boosted budget."""
+    import os
+    rng = ctx.rng
+    for dgr in list(ctx.disagreements)[:40]:
+        c = dgr["case"]
+        if isinstance(c.get("stream_hex"), str):
+            data = unhx(c["stream_hex"])
+            parts = all_partitions(data) if len(data) <= 11 else (random_partition(rng, data, [])[1] for _ in range(60))
+            for chunks in parts:
+                _oracle_only_decoders(ctx, "search", data, chunks)
+            # the same bytes as payloads of a fresh, valid encoding
+            frames, _, _ = ref_decode(data)
+            ps = [f[1] if f[0] == "data" else None for f in frames]
+            if ps:
+                enc = _enc(ps)
+                for _ in range(20):
+                    _oracle_only_decoders(ctx, "search", enc, random_partition(rng, enc, frame_boundaries(ps))[1], ps=ps)
+        if ctx.oracle_failures:
+            return
+    old = os.environ.get("VERIF_BUDGET_SCALE")
+    os.environ["VERIF_BUDGET_SCALE"] = str(3 * float(old or "1"))
+    try:
+        for fn in (_stream_roundtrip, _stream_exhaustive, _stream_malformed, _stream_sideband, _stream_bufwriter,
+                   _stream_caps, _stream_rpops, _stream_script, _stream_trailer, _stream_oversize, _stream_parselen,
+                   _stream_prefix):
+            n0 = len(ctx.disagreements)
+            try:
+                fn(ctx)
+            except core.InfraError:
+                raise
+            del ctx.disagreements[max(n0, 200):]
+            if ctx.oracle_failures:
+                return
+    finally:
+        if old is None:
+            os.environ.pop("VERIF_BUDGET_SCALE", None)
+        else:
+            os.environ["VERIF_BUDGET_SCALE"] = old
+
+
+def replay(ctx: core.Ctx, data: dict) -> int:
+    """Re-run the direct oracle on the case stored in a replay / corpus file."""
+    from dulwich.protocol import pkt_line, format_ref_line, extract_capabilities, extract_want_line_capabilities
+    c = data.get("case", data)
+    stream = data.get("stream", "")
+    shown = False
+    if data.get("kind") == "broken-obligation":
+        print("replay: broken obligation (no failing input was found):")
+        for w in data.get("no_longer_checks", []):
+            print("   ", w)
+        for dgr in data.get("disagreements", [])[:3]:
+            print("    disagreement:", json.dumps(dgr)[:600])
+        # re-establish: run the whole check
+        ctx.lean = core.lean_check("C19")
+        run(ctx)
+        return ctx.finish(search)
+    if isinstance(c.get("stream_hex"), str):
+        b = unhx(c["stream_hex"])
+        chunks = split_at(b, list(itertools.accumulate(c.get("chunk_sizes") or [len(b)])))
+        if c.get("chunk_sizes") and 0 in c["chunk_sizes"]:
+            # empty fragments are positional; rebuild exactly
+            chunks, pos = [], 0
+            for n in c["chunk_sizes"]:
+                chunks.append(b[pos:pos + n])
+                pos += n
+        print(f"replay: {len(b)}-byte stream, {len(chunks)} fragments; decoders:")
+        print("   Protocol(BytesIO)        ", _short(real_read_blocking(b)[0]))
+        print("   Protocol(BufferedReader) ", _short(real_read_buffered(chunks)[0]))
+        print("   ReceivableProtocol       ", _short(real_read_rp(chunks)[0]))
+        print("   PktLineParser            ", _short(real_parse(chunks)))
+        print("   reference (reader/parser)", _short(expect_reader(b, False)[0]), "/", _short(expect_parser(b)))
+        if "ops" in c:
+            print("   script", c["ops"], "->", _run_script_real(b, c["ops"]))
+        ps = None
+        if c.get("payload_lens") is not None:
+            frames, _, _ = ref_decode(b)
+            ps = [f[1] if f[0] == "data" else None for f in frames]
+            if [None if p is None else len(p) for p in ps] != c["payload_lens"]:
+                ps = None
+        _check_decoders(ctx, "replay", b, chunks, ps=ps)
+        if ps is not None:
+            n = len(ps)
+            probe = _run_script_real(b, ["e", "r"] * n + ["e"])
+            want = " ".join(x for p in ps for x in ("0", show_pkt(p))) + (" " if n else "") + "1"
+            if probe != want:
+                ctx.oracle_fail("replay", c, f"eof()/read_pkt_line interleaving returned {_short(probe)}")
+        shown = True
+    elif "payload_len" in c:
+        n = c["payload_len"]
+        payload = bytes([int(c.get("payload_byte", "00"), 16)]) * n
+        try:
+            fr = pkt_line(payload)
+            print(f"replay: pkt_line({n} bytes) -> {len(fr)}-byte frame, prefix {fr[:len(fr) - n]!r}")
+            _oracle_frame(ctx, "replay", payload, fr)
+        except Exception as e:  # noqa: BLE001
+            print(f"replay: pkt_line({n} bytes) refused: {type(e).__name__}")
+        shown = True
+    elif "sizestr" in c:
+        from dulwich.protocol import _parse_pkt_line_length
+        s = unhx(c["sizestr"])
+        try:
+            r = f"ok {_parse_pkt_line_length(s)}"
+        except Exception as e:  # noqa: BLE001
+            r = _classify_exc(e)
+        exp = f"ok {int(s, 16)}" if len(s) == 4 and all(x in HEXCHARS for x in s) else "P"
+        print(f"replay: _parse_pkt_line_length({s!r}) -> {r}; expected {exp}")
+        if r != exp:
+            ctx.oracle_fail("replay", c, f"_parse_pkt_line_length({s!r}) -> {r}")
+        shown = True
+    elif "writes" in c:
+        _sideband_cases(ctx, [[(ch, (spec, blob_of(spec))) for ch, spec in c["writes"]]], model=False)
+        print("replay: side-band scenario", [(ch, spec if isinstance(spec, dict) else len(spec) // 2) for ch, spec in c["writes"]])
+        shown = True
+    elif "bufsize" in c and "datas" in c:
+        _bufwriter_cases(ctx, [(c["bufsize"], [(sp, blob_of(sp)) for sp in c["datas"]])], model=False)
+        print("replay: BufferedPktLineWriter scenario bufsize", c["bufsize"], c.get("data_lens"))
+        shown = True
+    elif "caps" in c and "sha" in c:
+        caps = None if c["caps"] is None else [unhx(x) for x in c["caps"]]
+        sha = c["sha"].encode()
+        if c.get("want_line") or c.get("kind") == "want-caps":
+            wl = b"want " + sha + b" " + b" ".join(caps) + b"\n"
+            got = extract_want_line_capabilities(wl)
+            print(f"replay: extract_want_line_capabilities({wl!r}) -> {got}")
+            if got != (b"want " + sha, caps):
+                ctx.oracle_fail("replay", c, f"want line came back as {got}",
+                                "caps:edge-token-empty-or-ascii-whitespace" if caps and (caps[-1] == b"" or caps[-1][-1:] in WS_SET) else None)
+        else:
+            ref = unhx(c["ref"])
+            line = format_ref_line(ref, sha, caps)
+            try:
+                got = extract_capabilities(line)
+            except ValueError as e:
+                got = f"ValueError({e})"
+            print(f"replay: extract_capabilities({line!r}) -> {got}")
+            want = (line, []) if caps is None else (sha + b" " + ref, caps)
+            if got != want:
+                ctx.oracle_fail("replay", c, f"ref line came back as {got}", caps_class(caps))
+        shown = True
+    elif "ops" in c and "rbufsize" in c:
+        from dulwich.protocol import ReceivableProtocol
+        b = unhx(c["data"])
+        chunks = split_at(b, list(itertools.accumulate(c["chunks"])))
+        p = ReceivableProtocol(make_recv(chunks), lambda x: None, rbufsize=c["rbufsize"])
+        pos = 0
+        for op in c["ops"]:
+            n = int(op[1:])
+            try:
+                got = p.read(n) if op[0] == "r" else p.recv(n)
+            except AssertionError:
+                print("   ", op, "AssertionError")
+                if n:
+                    ctx.oracle_fail("replay", c, f"{op} raised AssertionError")
+                break
+            rest = b[pos:]
+            ok = got == rest[:n] if op[0] == "r" else (rest.startswith(got) and len(got) <= n and (got or not rest))
+            print("   ", op, got, "ok" if ok else "WRONG")
+            if not ok:
+                ctx.oracle_fail("replay", c, f"{op} returned {got!r} at stream position {pos}")
+                break
+            pos += len(got)
+        shown = True
+    elif "hash_size" in c:
+        from dulwich.pack import PackStreamReader
+        h, b = c["hash_size"], unhx(c["data"])
+        chunks, pos = [], 0
+        for n in c["chunk_sizes"]:
+            chunks.append(b[pos:pos + n])
+            pos += n
+        r = PackStreamReader(lambda: _RecHash(h), None)
+        it = iter(chunks)
+        for ch in chunks:
+            r._read(lambda size: next(it), len(ch))
+        print(f"replay: trailer {bytes(r._trailer)!r}, hashed {len(r.sha.data)} bytes of {len(b)}")
+        if bytes(r.sha.data) + bytes(r._trailer) != b or len(r._trailer) != min(h, len(b)):
+            ctx.oracle_fail("replay", c, "hashed ++ trailer != bytes read")
+        shown = True
+    if not shown:
+        print("replay: case not self-contained (C git peer stream); re-running that stream")
+        _stream_gitpeer(ctx)
+    for k in ctx.known:
+        if ctx.known_hit.get(k["id"]):
+            print(f"KNOWN-FINDING: property=C19 {k['id']}: {k['what']}")
+    if ctx.oracle_failures:
+        for f in ctx.oracle_failures[:5]:
+            print("   FAIL:", f["what"][:300])
+        print(f"VIOLATION property=C19 replay={data.get('_path', '<replayed>')}")
+        return 1
+    print("replay: property holds on this case" + (" (apart from the known findings above)" if ctx.known_hit else ""))
+    return 0
